@@ -609,6 +609,10 @@ class Interp:
             info = self.class_info(obj.module, obj.name) if obj.module else None
             if info and name in info.attrs:
                 return self.eval(st, Frame({}, [], info.modname), info.attrs[name])
+            if info and name in info.methods:
+                # `Base.method(self, ...)`: the plain function; contracts / inline permissions are keyed by its qualified name
+                qual = "%s.%s.%s" % (info.modname, info.name, name)
+                return VFunc(extract.extract(qual), [], qualname=qual)
             raise Unsupported("class attribute %s.%s" % (obj.name, name))
         if obj is NAN:
             if name in ("real", "imag"):
@@ -1117,7 +1121,8 @@ class Interp:
         base = node.module or ""
         if node.level:
             parts = fr.modname.split(".")
-            up = parts[:len(parts) - node.level]
+            is_pkg = extract.module(fr.modname).path.endswith("__init__.py")
+            up = parts[:len(parts) - node.level + (1 if is_pkg else 0)]
             base = ".".join(up + ([node.module] if node.module else []))
         for a in node.names:
             fr.locals[a.asname or a.name] = self.resolve_import(st, base, a.name)
